@@ -34,10 +34,11 @@ EXTENDS Naturals, Sequences, FiniteSets, TLC, CfgSchema
 
 CONSTANTS MaxPrefix,      \* well-formed entries before the malformed item (0..MaxPrefix)
           MaxTrail,       \* well-formed entries after it (0..MaxTrail)
-          Variant,        \* "ok" | negative controls: "swallow", "loseprefix", "spin"
+          Variant,        \* "ok" | negative controls: "swallow", "loseprefix", "spin", "noname", "freerewind"
           ReqTokens,      \* step tokens of enumerated scenario request lists (subset of AllReqTokens)
           MaxReqLen,      \* request lists of 0..MaxReqLen steps
-          CfgTreeSyn      \* syntaxes in which the configuration-tree cases (CfgSchema) are enumerated
+          CfgTreeSyn,     \* syntaxes in which the configuration-tree cases (CfgSchema) are enumerated
+          MaxPropLines    \* property files of 0..MaxPropLines lines
 
 VARIABLES cs,             \* the case (constant during a behaviour)
           st              \* reader state
@@ -72,7 +73,24 @@ SizeClasses   == {"truncated", "negsize", "absurdsize", "nonnumsize"}
 \*          arg = <<item class, passes, limit>> (limit 0 = none).  The reader re-opens the file for every pass:
 \*          pass k delivers what pass 1 delivered, the item is met (and the run fails) in pass 1 unless the limit
 \*          stops the reader before it gets there; whole-file readers meet it while loading, whatever the limit.
-ParamAmmoClasses == {"cut", "long", "rerun"}
+\*   degen: the file consists of NOTHING BUT n copies of one degenerate item (a raw entry of size 0, blank lines, header
+\*          lines without an entry, empty JSON objects), read by a streaming reader with passes = 0 (unlimited) while the
+\*          consumers take `take` entries; arg = <<item kind, n, take>>.  Decided here: PROGRESS - a reader goes round
+\*          the file again only after a pass that handed something out; a pass without ammo ends the run ("no ammo in
+\*          file").  The driver counts the rewinds of the file (file operations, not time).
+ParamAmmoClasses == {"cut", "long", "rerun", "degen"}
+DegenKinds(f) == CASE f = "raw"      -> {"size0", "size0tag", "blank"}
+                   [] f = "uripost"  -> {"blank", "hdronly"}
+                   [] f = "uri"      -> {"blank", "hdronly"}
+                   [] f = "jsonline" -> {"emptyobj", "blank"}
+                   [] f = "grpcjson" -> {"emptyobj", "blank"}
+                   [] OTHER          -> {}
+DegenArgs(f) == { <<d, n, k>> : d \in DegenKinds(f), n \in 1..2, k \in {1, 3} }
+\* what a reader may do with a degenerate item.  Blank lines and header lines are not entries: they are stepped over.
+\* An entry that is complete but carries no request (size 0, {}) may be stepped over, rejected, or handed out as it is
+\* (that the http provider hands out entries it cannot build a request from is finding #24, not judged again here).
+DegenTreat(f, d) == IF d \in {"blank", "hdronly"} THEN (IF f = "grpcjson" THEN {"skip", "reject"} ELSE {"skip"})
+                    ELSE {"skip", "reject", "handout"}
 RerunBad(f) == CASE f = "uri" -> "hdr_nocolon" [] f = "uripost" -> "negsize" [] f = "raw" -> "nonnumsize" [] OTHER -> "badjson"
 RerunArgs(f) == { <<b, p, l>> : b \in {"none", RerunBad(f)}, p \in 2..3, l \in {0, 1, 3, 5} }
 CutPoints == {"sizeline_mid",      \* inside the size line itself
@@ -102,6 +120,7 @@ Applies(f, c) ==
       [] c = "cut"           -> f \in {"uripost", "raw"}
       [] c = "long"          -> f = "grpcjson"
       [] c = "rerun"         -> TRUE
+      [] c = "degen"         -> DegenKinds(f) # {}
       [] c = "hdr_late"      -> f \in {"uri", "uripost"}
       [] c \in HeaderClasses -> f \in {"uri", "uripost"}
       [] c \in JsonClasses   -> f \in {"jsonline", "jsonarray", "grpcjson"}
@@ -132,7 +151,8 @@ Verdict(f, c) ==
 
 \* verdict of a case (the parameterised classes look at c.arg)
 \* ("mustskip": the undecodable lines of a long continue-on-error file are stepped over, one by one)
-VerdictC(c) == IF c.cls = "cut" THEN (IF c.arg[1] = "body_nonl" THEN "deliver" ELSE "reject")
+VerdictC(c) == IF c.cls = "degen" THEN "either" ELSE
+               IF c.cls = "cut" THEN (IF c.arg[1] = "body_nonl" THEN "deliver" ELSE "reject")
                ELSE IF c.cls = "long" THEN "mustskip"
                ELSE IF c.cls = "rerun" THEN Verdict(c.format, c.arg[1])
                ELSE Verdict(c.format, c.cls)
@@ -209,6 +229,7 @@ DescTable == [
     prop_nofile      |-> [t |-> {"config"},      at |-> 1, v |-> "reject"],
     prop_nosuchkey   |-> [t |-> {"config"},      at |-> 1, v |-> "reject"],
     prop_emptykey    |-> [t |-> {"config"},      at |-> 1, v |-> "reject"],
+    prop_dir         |-> [t |-> {"config"},      at |-> 1, v |-> "reject"],
     unknown_tag      |-> [t |-> {"config"},      at |-> 0, v |-> "deliver"],
     env_unset        |-> [t |-> {"config"},      at |-> 1, v |-> "reject"],
     env_badint       |-> [t |-> {"config"},      at |-> 1, v |-> "reject"]
@@ -234,6 +255,9 @@ AmmoCases ==
     \cup
     { [kind |-> "ammo", format |-> "grpcjson", mode |-> "continue", np |-> 0, cls |-> "long", nt |-> 0, arg |-> a] :
         a \in LongArgs }
+    \cup
+    UNION { { [kind |-> "ammo", format |-> f, mode |-> "stream", np |-> 0, cls |-> "degen", nt |-> 0, arg |-> a] :
+                a \in DegenArgs(f) } : f \in Formats }
 
 AmmoCaseOK(c) ==
     /\ c.mode \in Modes(c.format)
@@ -243,6 +267,7 @@ AmmoCaseOK(c) ==
     /\ (c.cls = "cut"  => c.nt = 0 /\ c.arg \in CutArgs)
     /\ (c.cls = "rerun" => c.mode \in {"stream", "preload"} /\ c.arg \in RerunArgs(c.format))
     /\ (c.cls = "long" => c.np = 0 /\ c.nt = 0 /\ c.mode = "continue" /\ c.arg \in LongArgs)
+    /\ (c.cls = "degen" => c.np = 0 /\ c.nt = 0 /\ c.mode = "stream" /\ c.arg \in DegenArgs(c.format))
     /\ (c.cls \notin ParamAmmoClasses => c.arg = <<>>)
 
 DescCases ==
@@ -332,6 +357,42 @@ PoolCases == { [kind |-> "desc", format |-> "pool", mode |-> "-", np |-> 0, cls 
 \* the name the rejection must carry ("-": none)
 NameOf(c) == IF c.format = "pool" THEN PoolTable[c.cls].nm ELSE "-"
 
+\* (f) PROPERTY FILES behind a `${property:file#key}` placeholder (target "config").  The file is a sequence of LINES
+\*     over PropTokens, written in a layout; the placeholder asks for `req` ("key", or "" - the placeholder without a
+\*     key).  An ENTRY is a line with a '=': its key is everything in front of the first '=', its value everything
+\*     behind it.  The resolver answers with the value of the FIRST entry whose key is exactly the requested one;
+\*     lines without '=' (a truncated entry `key`, blank lines) are not entries; a key is not trimmed and not
+\*     un-commented; a byte order mark belongs to the first line.  A line longer than the reader's buffer ends the
+\*     reading: what is in front of it resolves as always, what is behind it may or may not be found.
+\*     arg = <<lines, req, layout>>.  Observed: Value(v) (what the config field was set to), then the stage.
+PropTokens  == {"kv", "kv2", "bare", "blank", "comment", "eqonly", "emptyval", "other", "longer", "eqval", "spaced", "long"}
+PropLayouts == {"lf", "crlf", "nofinalnl", "bom"}
+PropReqs    == {"key", ""}
+PropHasEq(t) == t \notin {"bare", "blank"}
+PropKey(t) == CASE t \in {"kv", "kv2", "emptyval", "eqval"} -> "key"      \* key=v1  key=v2  key=  key=a=b
+                [] t = "eqonly"  -> ""                                     \* =
+                [] t = "other"   -> "other"                                \* other=x
+                [] t = "longer"  -> "key2"                                 \* key2=wrong
+                [] t = "spaced"  -> " key "                                \* " key = v3"
+                [] t = "comment" -> "# key"                                \* "# key=commented"
+                [] t = "long"    -> "zlong"                                \* zlong=<70 000 characters>
+                [] OTHER         -> "-"
+PropVal(t) == CASE t = "kv" -> "v1" [] t = "kv2" -> "v2" [] t = "eqval" -> "a=b" [] OTHER -> ""
+PropMatches(l, i, req, lay) == PropHasEq(l[i]) /\ PropKey(l[i]) = req /\ ~(lay = "bom" /\ i = 1)
+PropInfo(a) ==
+    LET l == a[1]
+        hits  == { i \in 1..Len(l) : PropMatches(l, i, a[2], a[3]) }
+        longs == { i \in 1..Len(l) : l[i] = "long" }
+        first == CHOOSE i \in hits : \A j \in hits : i <= j
+    IN IF hits = {} THEN [v |-> "reject", val |-> ""]
+       ELSE IF \E j \in longs : j < first THEN [v |-> "either", val |-> PropVal(l[first])]
+       ELSE [v |-> "deliver", val |-> PropVal(l[first])]
+PropLineSeqs == UNION { [1..n -> PropTokens] : n \in 0..MaxPropLines }
+PropArgs  == { <<l, r, lay>> : l \in PropLineSeqs, r \in PropReqs, lay \in PropLayouts }
+IsPropArg(a) == /\ Len(a) = 3 /\ Len(a[1]) <= MaxPropLines /\ \A i \in 1..Len(a[1]) : a[1][i] \in PropTokens
+                /\ a[2] \in PropReqs /\ a[3] \in PropLayouts
+PropCases == { [kind |-> "desc", format |-> "config", mode |-> "-", np |-> 0, cls |-> "propfile", nt |-> 0, arg |-> a] : a \in PropArgs }
+
 \* (e) configuration files as text (CfgSchema.tla): target "cfg", stages parse -> construct -> run
 CfgCases ==
     { [kind |-> "desc", format |-> "cfg", mode |-> "-", np |-> 0, cls |-> "tree", nt |-> 0, arg |-> a] :
@@ -341,7 +402,7 @@ CfgCases ==
 CfgI(c) == CfgInfo(c.cls, c.arg)
 
 ParamCases ==
-    PoolCases \cup CfgCases \cup
+    PoolCases \cup CfgCases \cup PropCases \cup
     { [kind |-> "desc", format |-> t, mode |-> "-", np |-> 0, cls |-> "tfunc", nt |-> 0, arg |-> a] :
         t \in ScenarioTargets, a \in FuncArgs }
     \cup
@@ -355,6 +416,7 @@ ParamCases ==
 DescInfo(c) ==
     CASE c.format = "pool" -> [t |-> {"pool"}, at |-> PoolTable[c.cls].at, v |-> PoolTable[c.cls].v]
       [] c.format = "cfg"  -> [t |-> {"cfg"}, at |-> CfgI(c).at, v |-> IF CfgI(c).v = "lax" THEN "either" ELSE CfgI(c).v]
+      [] c.cls = "propfile" -> LET i == PropInfo(c.arg) IN [t |-> {"config"}, at |-> IF i.v = "deliver" THEN 0 ELSE 1, v |-> i.v]
       [] c.cls = "reqlist" -> LET v == ReqListVerdict(c.arg) IN
                               [t |-> ScenarioTargets, at |-> IF v = "deliver" THEN 0 ELSE 1, v |-> v]
       [] c.cls = "index"   -> LET v == IndexVerdict(c.arg) IN
@@ -373,6 +435,7 @@ IsCase(c) ==
        ELSE /\ c.kind = "desc" /\ c.mode = "-" /\ c.np = 0 /\ c.nt = 0
             /\ CASE c.format = "pool" -> c.cls \in PoolClasses /\ c.arg = <<>>
                  [] c.format = "cfg"  -> IsCfgCase(c.cls, c.arg) /\ (c.cls = "tree" => c.arg[1] \in CfgSyntaxes)
+                 [] c.cls = "propfile" -> c.format = "config" /\ IsPropArg(c.arg)
                  [] c.cls = "reqlist" -> /\ c.format \in ScenarioTargets
                                          /\ Len(c.arg) <= MaxReqLen
                                          /\ \A i \in 1..Len(c.arg) : c.arg[i] \in ReqTokens
@@ -393,7 +456,7 @@ Trail(c)  == Strs(TrailIds(c))
 \* the file as a sequence of items
 \* (long files: nothing here builds the whole file per step - TLC re-evaluates operators on every reference)
 IsBad(c, i) == c.arg[2] # 0 /\ (i = 2 \/ i % c.arg[2] = 0)
-FileLen(c)  == IF c.cls = "long" THEN c.arg[1] ELSE c.np + 1 + c.nt
+FileLen(c)  == IF c.cls = "long" THEN c.arg[1] ELSE IF c.cls = "degen" THEN c.arg[2] ELSE c.np + 1 + c.nt
 IsItem(c, pos) == IF c.cls = "long" THEN IsBad(c, pos) ELSE pos = c.np + 1
 ItemAt(c, pos) == IF IsItem(c, pos) THEN "x"
                   ELSE IF c.cls = "long" THEN ToString(pos)
@@ -412,7 +475,7 @@ Lead(c) == IF c.cls = "long" THEN (IF c.arg[2] = 0 THEN File(c) ELSE <<"1">>) EL
 (*   loaded : whole-file readers: "no" before the decode-everything step,  *)
 (*            then "with" / "without" the item in the loaded list          *)
 
-Start(c) == [pos |-> 1, out |-> <<>>, res |-> "run", loaded |-> "no", n |-> 0, pass |-> 1, cnt |-> 0]
+Start(c) == [pos |-> 1, out |-> <<>>, res |-> "run", loaded |-> "no", n |-> 0, pass |-> 1, cnt |-> 0, pd |-> 0]
 
 Ev(kind, arg) == [ev |-> kind, arg |-> arg]
 
@@ -460,6 +523,31 @@ AmmoSucc(c, s) ==
                                   SkipItem(s) }
           : v \in ItemVerdicts(c) }
 
+\* degenerate-only files, unlimited passes, `take` consumers (see ParamAmmoClasses).  pd = handed out in this pass.
+\* Before the run ends the driver reports how often the file was rewound: Rewinds(k), k = passes the consumers saw
+\* begin - 1, plus at most one rewind per entry the reader is ahead of them (the entry in its hand + what its sink
+\* buffers: grpc 128, http none).
+SinkBuffer(f) == IF f = "grpcjson" THEN 128 ELSE 0
+DegenSucc(c, s) ==
+    LET n     == c.arg[2]
+        take  == c.arg[3]
+        treat == DegenTreat(c.format, c.arg[1])
+        acc   == [e |-> Ev("End", "accepted"), s |-> [s EXCEPT !.res = "accepted"]]
+        ends  == IF s.cnt >= take THEN { acc }                               \* the consumers have what they wanted
+                 ELSE IF s.pos > n THEN (IF s.pd = 0 /\ Variant # "freerewind" THEN { Reject(s) } ELSE {})   \* a pass without ammo
+                 ELSE IF "reject" \in treat THEN { Reject(s) } ELSE {}
+        goes  == IF s.cnt >= take THEN {}
+                 ELSE IF s.pos > n
+                      THEN (IF s.pd > 0 \/ Variant = "freerewind"
+                              THEN { [e |-> Ev("Rewind", "-"), s |-> [s EXCEPT !.pos = 1, !.pass = @ + 1, !.pd = 0]] } ELSE {})
+                 ELSE (IF "skip" \in treat THEN { SkipItem(s) } ELSE {})
+                      \cup (IF "handout" \in treat
+                              THEN { [e |-> Ev("Deliver", "d"), s |-> [s EXCEPT !.pos = @ + 1, !.cnt = @ + 1, !.pd = @ + 1, !.out = Append(@, "d")]] }
+                              ELSE {})
+    IN IF s.loaded = "counted" THEN ends
+       ELSE goes \cup (IF ends # {} THEN { [e |-> Ev("Rewinds", ToString(k)), s |-> [s EXCEPT !.loaded = "counted"]] : k \in (s.pass - 1)..(s.pass + SinkBuffer(c.format)) }
+                                    ELSE {})
+
 DescSucc(c, s) ==
     LET d == DescInfo(c) IN
     IF s.pos > LastStage(c.format) THEN
@@ -500,13 +588,24 @@ CfgSucc(c, s) ==
          \cup (IF i.v = "lax" /\ s.pos = 3 /\ s.loaded = "no"
                  THEN { [e |-> Ev("End", "accepted"), s |-> [s EXCEPT !.res = "accepted"]] } ELSE {})
 
+\* property files: the value the field got is observed first, then the (single) stage of a config value
+PropSucc(c, s) ==
+    LET i == PropInfo(c.arg) IN
+    IF s.pos > 1 THEN { [e |-> Ev("End", "accepted"), s |-> [s EXCEPT !.res = "accepted"]] }
+    ELSE (IF i.v \in {"deliver", "either"} \/ Variant = "swallow"
+            THEN (IF s.loaded = "no" THEN { [e |-> Ev("Value", i.val), s |-> [s EXCEPT !.loaded = "valued"]] }
+                  ELSE { [e |-> Ev("Stage", Stages[1]), s |-> [s EXCEPT !.pos = @ + 1]] })
+            ELSE {})
+         \cup (IF i.v \in {"reject", "either"} /\ s.loaded = "no" /\ Variant # "swallow"
+                 THEN { [e |-> Ev("End", "rejected"), s |-> [s EXCEPT !.res = "rejected"]] } ELSE {})
+
 Succ(c, s) ==
     IF s.res # "run" THEN {}
     ELSE { [e |-> x.e, s |-> [x.s EXCEPT !.n = @ + 1]] :
-             x \in (IF c.kind = "ammo" THEN AmmoSucc(c, s) ELSE IF c.format = "cfg" THEN CfgSucc(c, s) ELSE DescSucc(c, s)) }
+             x \in (IF c.kind = "ammo" THEN (IF c.cls = "degen" THEN DegenSucc(c, s) ELSE AmmoSucc(c, s)) ELSE IF c.format = "cfg" THEN CfgSucc(c, s) ELSE IF c.cls = "propfile" THEN PropSucc(c, s) ELSE DescSucc(c, s)) }
 
 \* events the implementation cannot show are silent for the acceptor
-Silent(e) == e.ev \in {"Load", "Skip", "Rewind"}
+Silent(e) == e.ev \in {"Load", "Skip", "Rewind"}     \* (degen: the rewinds are reported as a count, Rewinds(k))
 
 -----------------------------------------------------------------------------
 (* Design-level behaviour *)
@@ -547,7 +646,7 @@ TypeOK ==
 \* minus the item itself, is an initial part of the well-formed entries in file order
 \* (for the long files the check is made on the final state only - out only grows, so that implies the rest)
 PrefixUnchanged ==
-    (cs.kind = "ammo" /\ (cs.cls # "long" \/ st.res # "run")) => IsPrefixOf(Clean(cs, st.out), Expected(cs))
+    (cs.kind = "ammo" /\ cs.cls # "degen" /\ (cs.cls # "long" \/ st.res # "run")) => IsPrefixOf(Clean(cs, st.out), Expected(cs))
 
 \* an input that must be rejected is never accepted unless continue-on-error was requested and applies
 NoSilentAccept ==
@@ -568,15 +667,22 @@ NoFalseReject ==
 
 \* streaming: when the reader fails at the item, everything before it has been delivered, unchanged
 StreamDeliversPrefix ==
-    (st.res = "rejected" /\ cs.kind = "ammo") =>
+    (st.res = "rejected" /\ cs.kind = "ammo" /\ cs.cls # "degen") =>
         st.out = (IF AtLoad(cs) THEN <<>> ELSE Lead(cs))
 
 \* accepted: every well-formed entry was delivered, in order
 AcceptedDeliversAll ==
-    (st.res = "accepted" /\ cs.kind = "ammo") => Clean(cs, st.out) = Expected(cs)
+    /\ (st.res = "accepted" /\ cs.kind = "ammo" /\ cs.cls # "degen") => Clean(cs, st.out) = Expected(cs)
+    /\ (st.res = "accepted" /\ cs.kind = "ammo" /\ cs.cls = "degen") => Len(st.out) = cs.arg[3]
+
+\* degenerate-only files: every rewind of the file is paid for by an entry handed out in the pass before it
+RewindsArePaidFor ==
+    (cs.kind = "ammo" /\ cs.cls = "degen") => st.pass - 1 <= st.cnt
 
 \* no hang / no spinning: every step consumes an item or ends the run, so the number of steps (st.n) of
 \* any behaviour is bounded by the length of the input (+ load step + end step)
-Progress == st.n <= (IF cs.kind = "ammo" THEN (FileLen(cs) + 1) * NPasses(cs) + 1 ELSE LastStage(cs.format) + 2)
+Progress == st.n <= (IF cs.kind = "ammo"
+                       THEN (IF cs.cls = "degen" THEN (FileLen(cs) + 1) * (cs.arg[3] + 1) + 3 ELSE (FileLen(cs) + 1) * NPasses(cs) + 1)
+                       ELSE LastStage(cs.format) + 2)
 
 =============================================================================
